@@ -140,7 +140,13 @@ impl Quat {
         if length == 0.0 {
             Self::IDENTITY
         } else {
-            Self::from_axis_angle(v / length, length)
+            // Scale `v` directly instead of going through a unit axis: when `length_squared` is
+            // subnormal `length` is only accurate to a few bits, `v / length` is then not
+            // normalized and `from_axis_angle` would assert, although `sin(length / 2) / length`
+            // is still one half.
+            let (s, c) = math::sin_cos(length * 0.5);
+            let v = v * (s / length);
+            Self::from_xyzw(v.x, v.y, v.z, c)
         }
     }
 
